@@ -24,6 +24,12 @@ class Recorder:
                 f.write("%d\t%s\t%r\n" % (os.getpid(), name, args))
         return None
 
+    def tick(self, name, *args):
+        """hit() that also returns a process-unique serial number (a result that identifies the execution)."""
+        self.hit(name, *args)
+        with self._lock:
+            return len(self.events)
+
     def count(self, name=None):
         with self._lock:
             if name is None:
